@@ -187,6 +187,13 @@ fn parse_set_safe_command(command: &mut std::str::SplitN<&str>) -> Result<Reques
 
     let version = match rest.next() {
         Some(value) => match i32::from_str_radix(&value.replace("\n", ""), 10) {
+            // Versions below -1 are reserved (-2 marks a key as in conflict resolution), a client
+            // must not be able to store them
+            Ok(n) if n < -1 => {
+                return Err(String::from(
+                    "set-safe version must be -1 or a non negative number",
+                ))
+            }
             Ok(n) => n,
             _ => -1,
         },
